@@ -467,6 +467,53 @@ def _expanded_test(prog: Program, cq: str, f, test: ast.expr) -> List[ast.expr]:
     return out
 
 
+def ep_selected(prog: Program) -> RuleResult:
+    """The values of the selected expressions are data.  The conditions decide which assignments are solutions (EP-FILTER); once an
+    assignment passed them, the row is reported whatever the selected values are - 0, '', False and empty collections included.  So the
+    stream of selected-variable results is never filtered on its truth flag between the place it is produced and the descriptor's output."""
+    from ..callgraph import self_closure
+    from ..astutil import calls_in, call_name, site
+    from ..model import walk_local, parents_of
+
+    r = RuleResult("EP-SELECTED", "results of the selected expressions are reported whatever their truth", floor=1)
+    qod = prog.cls("symbolic.QueryObjectDescriptor")
+    ev = prog.lookup(qod.qual, "_evaluate__")
+    fs, _ = self_closure(prog, qod.qual, ev, False)
+    fs = [f for f in fs if f.cls is not None and f.cls.qual == qod.qual]
+    producers = {f.name for f in fs if "selected_variable" in f.name}
+    if not producers:
+        raise AnalysisError("EP-SELECTED: no method of QueryObjectDescriptor evaluates the selected variables")
+    n = 0
+    for f in sorted(fs, key=lambda x: x.qual):
+        par = parents_of(f.node)
+        for k_, c in enumerate(sorted([c for c in calls_in(f.node) if call_name(c) in producers or (isinstance(c.func, ast.Attribute) and c.func.attr == "_evaluate__" and "var" in src(c.func.value))],
+                                      key=lambda z: (z.lineno, z.col_offset))):
+            n += 1
+            bad = None
+            x = c
+            var = None
+            while x in par:
+                p = par[x]
+                if isinstance(p, ast.Call) and isinstance(p.func, ast.Name) and p.func.id == "filter" and x in p.args and any(t in src(p.args[0]) for t in ("is_true", "is_false")):
+                    bad = p
+                if isinstance(p, ast.comprehension) and p.iter is x and any(t in src(i) for i in p.ifs for t in ("is_true", "is_false")):
+                    bad = p.ifs[0]
+                if isinstance(p, ast.For) and p.iter is x and isinstance(p.target, ast.Name):
+                    var = p.target.id
+                    for t in [y for y in ast.walk(p) if isinstance(y, ast.If)]:
+                        if any(isinstance(z, ast.Attribute) and z.attr in ("is_true", "is_false") and isinstance(z.value, ast.Name) and z.value.id == var for z in ast.walk(t.test)) \
+                                and any(isinstance(z, (ast.Continue, ast.Break, ast.Return)) for b in t.body + t.orelse for z in ast.walk(b)):
+                            bad = t.test
+                x = p
+            r.check(bad is None, f"{f.short}#selected-values-unfiltered[{k_}]", site(f, bad if bad is not None else c), src(c)[:80],
+                    "the stream of selected values is passed on as it is",
+                    f"the results of the selected expressions are filtered on their truth flag ({src(bad)[:60] if bad is not None else ''}): a solution whose selected value is falsy "
+                    "(entity(y) over [0, 1, 2]; set_of([x, y], cond(x)) with y = 0) is dropped, the(...) and the count constraints see fewer solutions than there are")
+    if n < 1:
+        raise AnalysisError("EP-SELECTED: no evaluation of selected variables found")
+    return r
+
+
 def ep_operand(prog: Program) -> RuleResult:
     """Operand results are filtered on their truth flag by comparators; the flag of a value-producing node must therefore not
     depend on the truthiness of the value unless the node stands in condition position."""
@@ -764,6 +811,34 @@ def ep_quant(prog: Program) -> RuleResult:
             keyed, why = True, f"key over {src(coll)} minus the quantified variable"
     r.check(keyed is True, "Exists._evaluate__#keyed-by-free-variables", site(f), why, "one result per binding of the free variables",
             f"{why}: exists(y, x.a == y.a) with x unbound drops a second x that matches the same y, and a bound x with two matching y is answered twice")
+    # one verdict per binding: a binding reported true (a witness was found) is not reported false when the pass ends.  A failing value of
+    # the quantified expression may well be seen before the witness; what was noted for it has to go when the witness arrives.
+    sat_names = {a_.func.value.id for a_ in adds}
+    post = [lp for lp in f.node.body if isinstance(lp, ast.For) and any(isinstance(y, (ast.Yield, ast.YieldFrom)) for y in ast.walk(lp))]
+    post = [lp for lp in post if not any(isinstance(c_, ast.Call) and call_name(c_) == "_evaluate__" for c_ in ast.walk(lp.iter))]
+    verdict_ok = True
+    why_v = "no emission after the pass"
+    for lp in post:
+        coll = next((x.id for x in ast.walk(lp.iter) if isinstance(x, ast.Name)), None)
+        if coll is None:
+            continue
+        removed = any(isinstance(c_, ast.Call) and isinstance(c_.func, ast.Attribute) and isinstance(c_.func.value, ast.Name) and c_.func.value.id == coll and c_.func.attr in ("pop", "discard", "remove", "__delitem__")
+                      for c_ in ast.walk(f.node)) or any(isinstance(d, ast.Delete) and any(isinstance(t, ast.Subscript) and isinstance(t.value, ast.Name) and t.value.id == coll for t in d.targets) for d in ast.walk(f.node))
+        skipped = any(isinstance(cmp_, ast.Compare) and any(isinstance(o, (ast.In, ast.NotIn)) for o in cmp_.ops) and any(isinstance(cc, ast.Name) and cc.id in sat_names for cc in cmp_.comparators)
+                      for cmp_ in ast.walk(lp))
+        # the removal has to sit where the witness is recorded
+        at_witness = False
+        for a_ in adds:
+            for t in [y for y in ast.walk(f.node) if isinstance(y, ast.If) and any(z is a_ for b in y.body for z in ast.walk(b))]:
+                if any(isinstance(c_, ast.Call) and isinstance(c_.func, ast.Attribute) and isinstance(c_.func.value, ast.Name) and c_.func.value.id == coll and c_.func.attr in ("pop", "discard", "remove") for b in t.body for c_ in ast.walk(b)) \
+                        or any(isinstance(d, ast.Delete) for b in t.body for d in ast.walk(b)):
+                    at_witness = True
+        ok_ = (removed and at_witness) or skipped
+        verdict_ok = verdict_ok and ok_
+        why_v = f"false results are emitted from `{coll}` after the pass; " + ("bindings with a witness are taken out of it / skipped" if ok_ else "nothing removes a binding from it when its witness arrives and the loop does not skip satisfied bindings")
+    r.check(verdict_ok, "Exists._evaluate__#one-verdict-per-binding", site(f), why_v, "a binding is reported true or false, never both",
+            f"{why_v}: when a failing value of the quantified expression is enumerated before a satisfying one, the binding is reported true and then false; under not_(and_(exists(...), c)) "
+            "the false report is flipped into a row that violates the condition")
     # the quantified expression may be an attribute chain that enumerates on its way (shelf.boxes -> flatten -> box.parts): the nodes it is
     # computed from are bound per element and belong to the key, otherwise all boxes of a shelf share one answer
     id_lists = set()
@@ -868,4 +943,4 @@ def run(prog: Program, tier: str) -> List[RuleResult]:
     from .c03 import domain_cache
 
     _cache.clear()
-    return [ep_thread(prog), ep_neg(prog), ep_filter(prog), ep_operand(prog), domain_cache(prog), ep_universal(prog), ep_empty(prog), ep_quant(prog)]
+    return [ep_thread(prog), ep_neg(prog), ep_filter(prog), ep_selected(prog), ep_operand(prog), domain_cache(prog), ep_universal(prog), ep_empty(prog), ep_quant(prog)]
